@@ -180,6 +180,10 @@ class Sequential(SubCheck):
                     except Exception as exc:
                         fail('operation-raised/%s' % type(exc).__name__, '%s(prefix=%r, side=%s) raised %r' % (name, prefix, side, exc), op)
                     t1 = clock.peek()
+                    if t1 - t0 > 10000 * 2.0 ** -20:
+                        # every reading of the virtual clock advances it by 2**-20 s: the call looked at the clock more than ten
+                        # thousand times (one reading per skipped expired item is what the code needs; queues here hold < 50 items)
+                        fail('no-progress', '%s(prefix=%r, side=%s) read the clock %d times before it returned: it was spinning' % (name, prefix, side, int((t1 - t0) * 2 ** 20)), op)
                     q = queues[prefix]
                     exp = None
                     while q:
@@ -209,6 +213,14 @@ class Sequential(SubCheck):
                     if op[1] in ordinary:
                         del obj[op[1]]
                         del ordinary[op[1]]
+                    else:
+                        # refused (KeyError): a transaction that rolls back, between the queue operations
+                        try:
+                            del obj[op[1]]
+                        except KeyError:
+                            pass
+                        else:
+                            fail('ordinary-key', 'deleting the absent ordinary key %r did not raise KeyError' % (op[1],), op)
                 elif name == 'getkey':
                     # the key returned by push identifies that item
                     if pushed_keys:
